@@ -99,12 +99,11 @@ class HTTPDriver(explore.Driver):
                 exp = self.blob[st.pos:st.pos + n]
                 got = f.read(n)
                 st.last = (n, st.pos, bytes(got), exp)
-                over = st.pos + n > self.L
                 st.pos = min(st.pos + n, self.L)
             got_pos = f.tell()
-            if kind == "read" and over and got_pos >= self.L:
-                # after a read beyond EOF any position >= L is accepted
-                st.pos = got_pos
+            # file-object semantics: a read that is cut short at the end of
+            # the resource leaves the position at the end (a later relative
+            # seek / read refers to it)
         except Exception as e:
             st.err = f"{type(e).__name__}: {e}"
             return ("exc", type(e).__name__)
@@ -288,7 +287,7 @@ def _ds_case(args):
 
 
 def run(ctx):
-    depth = 3 if ctx.quick else 4
+    depth = 4 if ctx.quick else 5
     dev = 1
     cfgs = grid(ctx)
     results = par.pmap(_run_cfg, [(c, depth, dev) for c in cfgs])
@@ -326,7 +325,7 @@ def run(ctx):
                 "prescribes (invalid range => 200 + full body); flavours "
                 "strict416 / empty206 model deviating servers",
                 "read(n) with n >= 0 only (a length)",
-                "after a read beyond EOF any position >= length is accepted"]}
+                "a read cut short at EOF leaves the position at EOF (io semantics)"]}
 
 
 def replay(case, ctx):
